@@ -7,7 +7,7 @@ Require Import EV.model.Chan EV.proofs.ChanP EV.model.Link EV.proofs.LinkP EV.ge
 (* the configuration of the channel model as read off the source by tools/gen_facts.py; the shape facts say that
    the functions the model's atomic steps stand for still have the modelled structure *)
 Definition chan_cfg : ccfg := {| setcb_atomic := chan_setcb_atomic && chan_receiver_locked |}.
-Lemma C03_cfg_ok : cfg_ok chan_cfg /\ chan_receive_shape_ok = true /\ chan_local_receive_shape_ok = true /\ chan_local_close_order_ok = true /\ chan_setcb_handles_concurrent_close = true /\ chan_close_shape_ok = true /\ chan_handlers_ok = true.
+Lemma C03_cfg_ok : cfg_ok chan_cfg /\ chan_receive_shape_ok = true /\ chan_local_receive_shape_ok = true /\ chan_local_close_order_ok = true /\ chan_setcb_handles_concurrent_close = true /\ chan_close_shape_ok = true /\ chan_handlers_ok = true /\ chan_regular_close_is_not_eof = true.
 Proof. repeat split; reflexivity. Qed.
 Definition C03_C : cfg_ok chan_cfg := proj1 C03_cfg_ok.
 
